@@ -757,9 +757,9 @@ func runC19(c *Ctx) {
 	for i := range seqs {
 		c19Seq(c, ns[i], seqs[i])
 	}
-	n, ne := 1500, 12
+	n, ne := 5000, 12
 	if c.Thorough() {
-		n, ne = 40000, 16
+		n, ne = 150000, 16
 	}
 	for i := 0; i < n; i++ {
 		c19Random(c, 4+c.R.Intn(ne-3))
